@@ -466,6 +466,22 @@ func (e *Engine) Prelude(sp *spec.File) (decls []string, quants []smt.Quant) {
 			quants = append(quants, smt.Quant{Name: fmt.Sprintf("split%d", i), Vars: vars, Body: sx.MustParse1(body), Pats: pat})
 		}
 	}
+	if _, ok := e.extraFn["uf:native_std_MemorySearchLastIndex"]; ok {
+		// std.MemorySearchLastIndex(mem, val, start): index of the last occurrence of val in mem[:start], or -1. Axioms
+		// over the uninterpreted function (true of the real search): a found index is an occurrence inside mem[:start];
+		// if mem[:start] ends with val, the index is start - len(val); -1 means no occurrence.
+		f := "(native_std_MemorySearchLastIndex m v s)"
+		vars := []smt.Var{{Name: "m", Sort: "String"}, {Name: "v", Sort: "String"}, {Name: "s", Sort: "Int"}}
+		pat := [][]*sx.T{{sx.MustParse1(f)}}
+		for i, body := range []string{
+			"(>= " + f + " (- 1))",
+			"(=> (>= " + f + " 0) (and (= (str.substr m " + f + " (str.len v)) v) (<= (+ " + f + " (str.len v)) s)))",
+			"(=> (and (<= 0 s) (<= s (str.len m)) (str.suffixof v (str.substr m 0 s))) (= " + f + " (- s (str.len v))))",
+			"(=> (and (<= 0 s) (<= s (str.len m)) (= " + f + " (- 1))) (not (str.contains (str.substr m 0 s) v)))",
+		} {
+			quants = append(quants, smt.Quant{Name: fmt.Sprintf("lastidx%d", i), Vars: vars, Body: sx.MustParse1(body), Pats: pat})
+		}
+	}
 	for _, c := range e.consts {
 		if strings.HasPrefix(c.Name, "notifs!") || strings.HasPrefix(c.Name, "xcalls!") {
 			e.extraFn["logat:"+c.Name] = fmt.Sprintf("(declare-fun at_%s (Int) GhostEv)", c.Name)
